@@ -52,6 +52,10 @@ let sei_result (r : (coq_N * bool) res) : string * string =
   | Panic -> ("panic", "")
   | OutOfFuel -> ("hang", "")
 
+(* the HEVC reference parameter sets (parsed by the model from the CTX lines) *)
+let ctx_hsps : C15HevcModel.hsps list ref = ref []
+let ctx_hpps : C15HevcModel.hpps list ref = ref []
+
 let set_ctx (kind : string) (hexes : string) : unit =
   let units () = L.map bytes_of_hex (split_on ',' hexes) in
   match kind with
@@ -60,6 +64,11 @@ let set_ctx (kind : string) (hexes : string) : unit =
   | "avcpps" ->
     ctx_pps := L.concat (L.map (fun u -> match c16_parse_pps (chroma_lookup !ctx_sps) u with Ok p -> [p] | _ -> []) (units ()))
   | "hevcpt" -> ctx_hevcpt := L.map hevcpt_of (split_on ',' hexes)
+  | "hevcsps" -> ctx_hsps := C16HevcPipeModel.parse_hsps_list (units ())
+  | "hevcpps" ->
+    (match C16HevcPipeModel.parse_hpps_list !ctx_hsps (units ()) with
+     | Some l -> ctx_hpps := l
+     | None -> failwith "a reference HEVC PPS is outside the model")
   | _ -> ()
 
 let hexs (l : coq_N list) : string = S.concat "," (L.map hex_of_n l)
@@ -94,6 +103,19 @@ let split3 (bs : coq_N list) : coq_N list * coq_N list * coq_N list =
   let (a, r1) = cut bs in
   let (b, r2) = cut r1 in
   (a, b, r2)
+
+let hpps_string (p : C15HevcModel.hpps) : string =
+  hexs [p.pp_id; p.pp_sps_id; p.pp_l0; p.pp_num_extra_bits; n_of_int (if p.pp_weighted_pred then 1 else 0)]
+let hslice_string (h : C15HevcModel.hslice) : string =
+  hexs [h.s_type; h.s_pps_id; h.s_l0; h.s_address; h.s_num_entry; h.s_size]
+
+let rec take_n k l acc = if k = 0 then (L.rev acc, l) else
+    match l with [] -> (L.rev acc, []) | y :: r -> take_n (k - 1) r (y :: acc)
+(* harness cut1 / cut2: a 1-byte resp. 2-byte big-endian length prefix, clipped to what is there *)
+let cut1 (bs : coq_N list) = match bs with [] -> ([], []) | n :: t -> take_n (int_of_n n) t []
+let cut2 (bs : coq_N list) = match bs with
+  | hi :: lo :: t -> take_n (int_of_n hi * 256 + int_of_n lo) t []
+  | _ -> ([], [])
 
 (* ---- configuration records (C16ConfRecModel.v): class and the whole decoded value *)
 let cr_nalus (l : BinNums.coq_N list list) : string =
@@ -217,6 +239,32 @@ let run (fn : string) (bs : coq_N list) (arg : int) : string * string =
        (match C16ConfRecModel.avc_decode_dec_conf_rec [] with
         | Ok (r, _) -> show1 slice_string (c16_parse_slice (sps_lookup []) (pps_lookup []) [])
         | Err -> ("err", "") | Panic -> ("panic", "") | OutOfFuel -> ("hang", "")))
+  (* ---- HEVC parsers (C16HevcParseModel over C15HevcModel).  "skip" = the model is undefined on this input
+     (a PPS selecting the multilayer / 3D extension): the case is outside the correspondence *)
+  | "hevc.ParseSPSNALUnit" ->
+    show1 (fun (s : C15HevcModel.hsps) ->
+        hexs [s.h_sps_id; s.h_width; s.h_height; s.h_chroma; s.h_num_st_rps; s.h_num_lt])
+      (C16HevcParseModel.c16_hparse_sps bs)
+  | "hevc.ParsePPSNALUnit" ->
+    (match C16HevcParseModel.c16_hparse_pps (C16HevcParseModel.hsps_has !ctx_hsps) bs with
+     | OutOfFuel -> ("skip", "")
+     | r -> show1 hpps_string r)
+  | "hevc.ParseSliceHeader#m" ->
+    show1 hslice_string (C16HevcParseModel.c16_hparse_slice (C16HevcParseModel.hsps_lookup !ctx_hsps)
+                           (C16HevcParseModel.hpps_lookup !ctx_hpps) bs)
+  | "hevc.ParsePSAndSlice#m" ->
+    let (a, b, rest) = split3 bs in
+    (match C16HevcParseModel.hevc_ps_and_slice !ctx_hsps !ctx_hpps a b rest with
+     | OutOfFuel -> ("skip", "")
+     | r -> show1 hslice_string r)
+  | "hevc.ParseSPSAndSEI" ->
+    let (a, rest) = cut1 bs in
+    sei_result (C16HevcPipeModel.hevc_sps_and_sei a rest)
+  | "hevc.DecConfRecAndSlice" ->
+    let (recb, rest) = cut2 bs in
+    (match C16HevcPipeModel.hevc_confrec_and_slice recb rest with
+     | OutOfFuel -> ("skip", "")
+     | r -> show1 hslice_string r)
   | "avc.GetSliceTypeFromNALU" -> show1 hex_of_n (get_slice_type bs)
   | "avc.ParsePSAndSlice" ->
     let (a, b, rest) = split3 bs in
@@ -261,7 +309,8 @@ let () =
       match split_on '\t' line with
       | ["W"; id; fn; inhex; arg; cls; value] ->
         let (mc, mv) = run fn (bytes_of_hex inhex) (int_of_string arg) in
-        if mc = cls && (cls <> "ok" || mv = value) then Printf.printf "OK %s\n" id
+        if mc = "skip" then Printf.printf "OK %s outside-model\n" id
+        else if mc = cls && (cls <> "ok" || mv = value) then Printf.printf "OK %s\n" id
         else Printf.printf "MISMATCH %s %s model=%s/%s\n" id fn mc mv
       | ["CTX"; kind; hexes] -> set_ctx kind hexes
       | _ -> Printf.printf "BADLINE %s\n" line)
